@@ -21,14 +21,17 @@
 using namespace vf;
 static Report R;
 static Args A;
-struct TrA : Tr<1> {
-  TrA() : Tr<1>() {}
-  TrA(int x) : Tr<1>(x) {}  // implicit: Optional<TrA> is assignable from Optional<int>
+// Constructions can be made to throw (life().throw_countdown): the fault alphabet of the throw:* operations. The element
+// throws before it writes to its storage: C13 says nothing about what a constructor that fails half way leaves behind
+// (Result keeps its error code in the same union), only that a value that was never constructed is not reported as held.
+struct TrA : Tr<1, true, true> {
+  TrA() : Tr<1, true, true>() {}
+  TrA(int x) : Tr<1, true, true>(x) {}  // implicit: Optional<TrA> is assignable from Optional<int>
 };
 enum class E { None = 0, A = 1, B = 200 };
 
 // ================================================================ optional world
-struct MO { bool on = false; int v = 0; bool unspec = false; };
+struct MO { bool on = false; int v = 0; bool unspec = false; bool open = false; };  // open: taken from the real object at the next comparison
 struct OModel { MO o[4]; };  // 0:o1 1:o2 2:e 3:oi(int)
 struct OWorld {
   nop::Optional<TrA>* o1; nop::Optional<TrA>* o2; nop::Entry<TrA, 7>* e; nop::Optional<int>* oi;
@@ -36,16 +39,16 @@ struct OWorld {
   ~OWorld() { delete o1; delete o2; delete e; delete oi; }
 };
 enum { O_SETL, O_SETR, O_COPY, O_MOVE, O_CLEAR, O_TAKE, O_FROM_INT_COPY, O_FROM_INT_MOVE, O_RB_DEFAULT, O_RB_VALUE, O_RB_INPLACE,
-       O_RB_COPY, O_RB_MOVE, O_INT_SET, O_INT_CLEAR, O_INT_COPYSELF, O_OBSERVE, O_RB_FROM_U };
+       O_RB_COPY, O_RB_MOVE, O_INT_SET, O_INT_CLEAR, O_INT_COPYSELF, O_OBSERVE, O_RB_FROM_U, O_THROW_SETL, O_THROW_COPY, O_THROW_FROM_INT };
 static const char* kON[] = {"=lvalue", "=rvalue", "copy=", "move=", "clear", "take", "=Optional<int>", "=move(Optional<int>)", "rebuild()",
                             "rebuild(value)", "rebuild(InPlace)", "rebuild(copy)", "rebuild(move)", "oi=", "oi.clear", "oi=oi", "observe",
-                            "rebuild(int)"};
+                            "rebuild(int)", "throw:=lvalue", "throw:copy=", "throw:=Optional<int>"};
 struct Op { int code, x, y; };
 static const char* kOV[] = {"o1", "o2", "e", "oi"};
 static std::string oopname(const Op& o) {
   std::string s = std::string(kOV[o.x]) + "." + kON[o.code];
-  if (o.code == O_COPY || o.code == O_MOVE || o.code == O_RB_COPY || o.code == O_RB_MOVE) return s + "(" + kOV[o.y] + ")";
-  if (o.code == O_SETL || o.code == O_SETR || o.code == O_RB_VALUE || o.code == O_RB_INPLACE || o.code == O_INT_SET || o.code == O_RB_FROM_U) return s + "(" + std::to_string(o.y) + ")";
+  if (o.code == O_COPY || o.code == O_MOVE || o.code == O_RB_COPY || o.code == O_RB_MOVE || o.code == O_THROW_COPY) return s + "(" + kOV[o.y] + ")";
+  if (o.code == O_SETL || o.code == O_SETR || o.code == O_RB_VALUE || o.code == O_RB_INPLACE || o.code == O_INT_SET || o.code == O_RB_FROM_U || o.code == O_THROW_SETL) return s + "(" + std::to_string(o.y) + ")";
   return s;
 }
 static std::vector<Op> oalphabet() {
@@ -66,6 +69,10 @@ static std::vector<Op> oalphabet() {
     ops.push_back({O_RB_INPLACE, x, 1});
     ops.push_back({O_RB_FROM_U, x, 2});
     ops.push_back({O_OBSERVE, x, 0});
+    // the next construction of an element throws
+    ops.push_back({O_THROW_SETL, x, 2});
+    for (int y = 0; y < 3; y++) if (y != x) ops.push_back({O_THROW_COPY, x, y});
+    ops.push_back({O_THROW_FROM_INT, x, 0});
   }
   ops.push_back({O_INT_SET, 3, 1});
   ops.push_back({O_INT_SET, 3, 2});
@@ -126,6 +133,23 @@ static void oreal(OWorld& w, const Op& o) {
     case O_INT_CLEAR: w.oi->clear(); break;
     case O_INT_COPYSELF: *w.oi = *w.oi; break;
     case O_OBSERVE: break;
+    case O_THROW_SETL: {
+      TrA t{o.y};
+      life().throw_countdown = 1;
+      try { if (o.x == 2) *w.e = t; else oref(w, o.x) = t; } catch (const ArmedThrow&) {}
+      life().throw_countdown = 0;
+      break;
+    }
+    case O_THROW_COPY:
+      life().throw_countdown = 1;
+      try { if (o.x == 2) *w.e = oref(w, o.y); else oref(w, o.x) = oref(w, o.y); } catch (const ArmedThrow&) {}
+      life().throw_countdown = 0;
+      break;
+    case O_THROW_FROM_INT:
+      life().throw_countdown = 1;
+      try { if (o.x == 2) *w.e = *w.oi; else oref(w, o.x) = *w.oi; } catch (const ArmedThrow&) {}
+      life().throw_countdown = 0;
+      break;
   }
 }
 static void omodel(OModel& m, const Op& o) {
@@ -144,6 +168,18 @@ static void omodel(OModel& m, const Op& o) {
     case O_RB_MOVE: t = m.o[o.y]; if (m.o[o.y].on) m.o[o.y].unspec = true; break;  // by construction: flag unchanged
     case O_INT_SET: t = {true, o.y, false}; break;
     case O_INT_CLEAR: t = MO(); break;
+    // A construction that throws: an engaged destination is assigned to (no construction, nothing throws); an empty one
+    // cannot have gained a value. Whether anything else changed is left open and read back from the object - the
+    // lifetime accounting of ocompare decides whether that state is a consistent one.
+    case O_THROW_SETL: if (t.on && !t.open) t = {true, o.y, false, false}; else t.open = true; break;
+    case O_THROW_COPY: case O_THROW_FROM_INT: {
+      const MO src = m.o[o.code == O_THROW_COPY ? o.y : 3];
+      if (t.open || src.open) t.open = true;
+      else if (!src.on) t = MO();
+      else if (t.on && o.code == O_THROW_COPY) t = src;  // element assignment; from Optional<int> a temporary is constructed
+      else t.open = true;
+      break;
+    }
     default: break;
   }
 }
@@ -152,10 +188,15 @@ static std::string ocanon(const OModel& m) {
   for (int i = 0; i < 4; i++) s += std::string(i ? " " : "") + (m.o[i].on ? (m.o[i].unspec ? "?" : std::to_string(m.o[i].v)) : "-");
   return s;
 }
-static std::string ocompare(OWorld& w, const OModel& m) {
+static std::string ocompare(OWorld& w, OModel& m) {
   long live = 0;
   for (int i = 0; i < 3; i++) {
     nop::Optional<TrA>& o = oref(w, i);
+    if (m.o[i].open) {
+      m.o[i] = MO();
+      m.o[i].on = !o.empty();
+      if (m.o[i].on) { o.get().check("get after a throwing assignment"); m.o[i].v = o.get().v; }
+    }
     if (o.empty() == m.o[i].on) return std::string(kOV[i]) + ".empty() = " + (o.empty() ? "true" : "false") + ", model says " + (m.o[i].on ? "engaged" : "empty");
     if (static_cast<bool>(o) != m.o[i].on) return std::string(kOV[i]) + " operator bool disagrees with the state";
     if (m.o[i].on) {
@@ -183,13 +224,13 @@ struct RWorld {
   ~RWorld() { delete r1; delete r2; delete rv; }
 };
 enum { R_SETL, R_SETR, R_ERR, R_COPY, R_MOVE, R_CLEAR, R_TAKE, R_RB_DEFAULT, R_RB_VALUE, R_RB_ERR, R_RB_COPY, R_RB_MOVE,
-       RV_ERR, RV_CLEAR, RV_COPYNEW, RV_MOVENEW, RV_SELF, R_OBSERVE };
+       RV_ERR, RV_CLEAR, RV_COPYNEW, RV_MOVENEW, RV_SELF, R_OBSERVE, R_THROW_SETL, R_THROW_COPY };
 static const char* kRN[] = {"=lvalue", "=rvalue", "=error", "copy=", "move=", "clear", "take", "rebuild()", "rebuild(value)", "rebuild(error)",
-                            "rebuild(copy)", "rebuild(move)", "rv=error", "rv.clear", "rv=copy-constructed", "rv=move-constructed", "rv=rv", "observe"};
+                            "rebuild(copy)", "rebuild(move)", "rv=error", "rv.clear", "rv=copy-constructed", "rv=move-constructed", "rv=rv", "observe", "throw:=lvalue", "throw:copy="};
 static const int kErrs[] = {0, 1, 200};
 static std::string ropname(const Op& o) {
   std::string s = std::string(o.x == 0 ? "r1" : o.x == 1 ? "r2" : "rv") + "." + kRN[o.code];
-  if (o.code == R_COPY || o.code == R_MOVE || o.code == R_RB_COPY || o.code == R_RB_MOVE) return s + "(r" + std::to_string(o.y + 1) + ")";
+  if (o.code == R_COPY || o.code == R_MOVE || o.code == R_RB_COPY || o.code == R_RB_MOVE || o.code == R_THROW_COPY) return s + "(r" + std::to_string(o.y + 1) + ")";
   return s + "(" + std::to_string(o.y) + ")";
 }
 static std::vector<Op> ralphabet() {
@@ -205,6 +246,8 @@ static std::vector<Op> ralphabet() {
     ops.push_back({R_RB_DEFAULT, x, 0});
     ops.push_back({R_RB_VALUE, x, 2});
     ops.push_back({R_OBSERVE, x, 0});
+    ops.push_back({R_THROW_SETL, x, 2});
+    ops.push_back({R_THROW_COPY, x, 1 - x});
   }
   for (int e : kErrs) ops.push_back({RV_ERR, 2, e});
   ops.push_back({RV_CLEAR, 2, 0});
@@ -233,6 +276,18 @@ static void rreal(RWorld& w, const Op& o) {
     case RV_COPYNEW: { nop::Result<E, void> c(*w.rv); *w.rv = c; break; }
     case RV_MOVENEW: { nop::Result<E, void> c(std::move(*w.rv)); nop::Result<E, void> d; d = std::move(c); *w.rv = d; break; }
     case RV_SELF: *w.rv = *w.rv; break;
+    case R_THROW_SETL: {
+      TrA t{o.y};
+      life().throw_countdown = 1;
+      try { *rref(w, o.x) = t; } catch (const ArmedThrow&) {}
+      life().throw_countdown = 0;
+      break;
+    }
+    case R_THROW_COPY:
+      life().throw_countdown = 1;
+      try { *rref(w, o.x) = *rref(w, o.y); } catch (const ArmedThrow&) {}
+      life().throw_countdown = 0;
+      break;
     default: break;
   }
 }
@@ -248,6 +303,17 @@ static void rmodel(RModel& m, const Op& o) {
     case R_RB_MOVE: m.r[o.x] = m.r[o.y]; m.r[o.y].st = -1; break;  // source after move construction: see rcompare
     case RV_ERR: m.rv = o.y; break;
     case RV_CLEAR: m.rv = 0; break;
+    // a construction that throws (see the optional world): -2 = read the state back, lifetime accounting decides
+    case R_THROW_SETL: if (m.r[o.x].st == 2) m.r[o.x] = {2, 0, o.y, false}; else m.r[o.x].st = -2; break;
+    case R_THROW_COPY: {
+      const MR src = m.r[o.y];
+      MR& t = m.r[o.x];
+      if (t.st < 0 || src.st < 0) t.st = -2;
+      else if (src.st != 2) t = src;
+      else if (t.st == 2) t = src;
+      else t.st = -2;
+      break;
+    }
     default: break;  // copy/move through temporaries and self assignment keep the value
   }
 }
@@ -268,6 +334,12 @@ static std::string rcompare(RWorld& w, RModel& m) {
       // source of a move construction: the property leaves it open whether it is emptied or keeps a moved-from value
       if (r.has_error()) return "moved-from result reports an error";
       mr = r.has_value() ? MR{2, 0, 0, true} : MR();
+    }
+    if (mr.st == -2) {
+      mr = MR();
+      mr.st = r.has_value() ? 2 : r.has_error() ? 1 : 0;
+      if (mr.st == 1) mr.err = (int)r.error();
+      if (mr.st == 2) { r.get().check("get after a throwing assignment"); mr.v = r.get().v; }
     }
     const int st = r.has_value() ? 2 : r.has_error() ? 1 : 0;
     if (r.has_value() && r.has_error()) return "has_value and has_error both true";
@@ -307,8 +379,9 @@ static void bfs(const char* tag, const std::vector<Op>& ops, RealF real, ModelF 
       bool report;
       {
         World w;
-        for (int pi : h) { real(w, ops[pi]); model(m, ops[pi]); hs += name(ops[pi]) + ";"; }
-        if (!h.empty()) cmp(w, m);  // resolves states the model leaves open (moved-from by construction)
+        // comparing after every step also resolves the states the model leaves open (moved-from by construction,
+        // destination of an assignment whose construction threw)
+        for (int pi : h) { real(w, ops[pi]); model(m, ops[pi]); cmp(w, m); hs += name(ops[pi]) + ";"; }
         cid = std::string("C13|") + tag + "|" + hs + name(ops[oi]);
         report = R.want(cid);
         real(w, ops[oi]);
@@ -353,8 +426,7 @@ static void bfs(const char* tag, const std::vector<Op>& ops, RealF real, ModelF 
         std::string why;
         {
           World w;
-          for (size_t k = 0; k + 1 < seq.size(); k++) { real(w, ops[seq[k]]); model(m, ops[seq[k]]); }
-          if (seq.size() > 1) cmp(w, m);
+          for (size_t k = 0; k + 1 < seq.size(); k++) { real(w, ops[seq[k]]); model(m, ops[seq[k]]); cmp(w, m); }
           real(w, ops[seq.back()]);
           model(m, ops[seq.back()]);
           why = cmp(w, m);
